@@ -562,8 +562,8 @@ func (in *inliner) exprCalls(info *types.Info, pkg *types.Package, host *ast.Fun
 type cloner struct {
 	info   *types.Info
 	subst  map[types.Object]ast.Expr
-	fresh  map[types.Object]types.Object // callee-local variable -> this copy's variable
-	lo, hi token.Pos                     // the callee declaration
+	fresh  map[types.Object]types.Object            // callee-local variable -> this copy's variable
+	lo, hi token.Pos                                // the callee declaration
 	sel    func(*ast.SelectorExpr) (ast.Expr, bool) // optional: replacement for a selector expression (declosure.go)
 	ident  func(*ast.Ident)                         // optional: told about every identifier copied as such
 }
@@ -1049,7 +1049,6 @@ func (in *inliner) pureReturns(info *types.Info, fd *ast.FuncDecl) bool {
 	return true
 }
 
-
 // panicOnErr recognises `if e := f(args); e != nil { panic(e) }` and returns the call.
 func panicOnErr(info *types.Info, is *ast.IfStmt) *ast.CallExpr {
 	as, ok := is.Init.(*ast.AssignStmt)
@@ -1180,7 +1179,6 @@ func (in *inliner) expandPanicking(info *types.Info, call *ast.CallExpr, fd *ast
 	return append(append([]ast.Stmt{}, binds...), nestGuards(copied)...)
 }
 
-
 // dissolve removes from the trees the rules see every unexported helper (new since the pinned commit) that no longer has
 // a reference anywhere after inlining: its body now stands, with the caller's facts around it, in every host that used it.
 // Judging the free-standing copy as well would ask of it what only holds in context (callByValue without the `!fun.Lazy`
@@ -1237,7 +1235,6 @@ func (in *inliner) dissolve() {
 	sort.Strings(p.Dissolved)
 }
 
-
 // copyInfo copies the types.Info entries of every node under root from src to dst (where dst has none).
 func copyInfo(dst, src *types.Info, root ast.Node) {
 	ast.Inspect(root, func(x ast.Node) bool {
@@ -1278,7 +1275,6 @@ func copyInfo(dst, src *types.Info, root ast.Node) {
 		return true
 	})
 }
-
 
 // hoist looks, in evaluation order, for the first call inside the expressions of st (a return, an assignment, an
 // expression statement or an if condition) whose callee is an inlinable helper with exactly one result and a body that is
